@@ -35,6 +35,11 @@ inline std::string tmpDir() {
   const char *t = getenv("VERIF_TMP");
   return t && *t ? std::string(t) : std::string("/verif/build/tmp");
 }
+// model layouts derived from the bundled en-us model by tools/gen_models.py (the driver passes the directory)
+inline std::string derivedModelsDir() {
+  const char *e = getenv("VERIF_MODELS");
+  return e ? e : std::string(VERIF_DIR) + "/build/models";
+}
 inline std::string verifDir() {
   const char *e = getenv("VERIF_DIR");
   return e ? e : VERIF_DIR;
